@@ -81,6 +81,14 @@ class Interp(OpsMixin, CallMixin, MatchMixin, SumsMixin):
             return self.module_cache[key]
         b = m.bindings.get(name)
         if b is None:
+            stars = m.bindings.get("*")
+            if stars is not None and name != "*":
+                for mod in stars[1]:
+                    if self.repo.has_module(mod):
+                        v = self.module_get(self.repo.get_module(mod), name)
+                        if v is not _MISSING:
+                            self.module_cache[key] = v
+                            return v
             return _MISSING
         kind = b[0]
         if kind == "def":
